@@ -1,7 +1,7 @@
 /-
   C09 — call/N, once/1, findall/3, = and \= agree with their standard definitions.
 -/
-import Yld.Proofs.Restore
+import Yld.Proofs.Restore2
 namespace Yld.C09
 
 /-- once(G) fails, without raising, when G has no answer. -/
@@ -39,5 +39,14 @@ theorem eq_is_unify (cfg : Cfg) (f : Nat) (a b : Term) : runBuiltin cfg (f+1) "=
 /-- … and leaves no binding behind. -/
 theorem eq_restores (cfg : Cfg) (f : Nat) (a b : Term) : Restoring (runBuiltin cfg (f+1) "=" [a, b]) := by
   rw [eq_is_unify]; exact unify_restoring f a b
+
+/-- findall/3, once/1, call/N, \\=/2 and the database builtins leave no binding made by their
+    goal: every builtin restores, for every consumer, at every fuel. -/
+theorem builtins_leave_no_binding (cfg : Cfg) (f : Nat) (b : String) (args : List Term) : Restoring (runBuiltin cfg f b args) :=
+  (allRestoring cfg f).2.2.2.1 b args
+
+/-- The consumer findall/3 runs its goal with never abandons it and binds nothing. -/
+theorem findall_collects_without_binding (f : Nat) (tmpl : Term) : Disciplined (findallCollect f tmpl) :=
+  findallCollect_disciplined f tmpl
 
 end Yld.C09
